@@ -353,6 +353,10 @@ TotalsMatch(ms) ==
   IN  /\ ms.tcc = SumSet(LiveIds(ms), cc) /\ ms.tpc = SumSet(LiveIds(ms), pc) /\ ms.tfee = SumSet(LiveIds(ms), fee)
 \* C01 (market clause): the actor holds at least the sum of all escrow balances
 Solvent(ms) == LET esc(x) == ms.escrow[x] IN ms.bal >= SumSet(Parties, esc)
+\* C01 ("no FIL is ... stranded"): what the actor holds beyond the escrow balances never changes through a market
+\* operation -- everything that leaves an escrow balance is paid to another escrow balance, withdrawn, or burnt
+Surplus(ms) == LET esc(x) == ms.escrow[x] IN ms.bal - SumSet(Parties, esc)
+NoStranding == Surplus(MS') = Surplus(MS)
 
 \* C06 withdrawal clause
 WithdrawExact ==
